@@ -285,7 +285,7 @@ func (m *Machine) doAssert(fr *Frame, c *smt.Term, label string) {
 		m.note("assert-model-failed:%s", label)
 	} else {
 		m.res.Violations = append(m.res.Violations, Violation{
-			Label: label, Kind: "assert", Inputs: in, Prefix: append([]int32(nil), m.decisions...),
+			Label: label, Kind: "assert", Inputs: in, Prefix: append([]int32(nil), m.decisions...), Kinds: string(m.kinds), Goroutines: len(m.gs),
 			Stack: m.stackOf(fr.caller, 6),
 		})
 	}
@@ -368,7 +368,7 @@ func (m *Machine) inputsFromModel(mod *smt.Model) []InputVal {
 
 func (m *Machine) onUncaughtPanic(tp targetPanic) {
 	msg := m.panicString(tp.v)
-	v := Violation{Label: "panic", Kind: "panic", Detail: msg, Prefix: append([]int32(nil), m.decisions...), Stack: tp.stack}
+	v := Violation{Label: "panic", Kind: "panic", Detail: msg, Prefix: append([]int32(nil), m.decisions...), Kinds: string(m.kinds), Goroutines: len(m.gs), Stack: tp.stack}
 	if in, ok := m.modelInputs(); ok {
 		v.Inputs = in
 		m.res.Violations = append(m.res.Violations, v)
